@@ -64,6 +64,11 @@ def OpOk (snd : Nat → Sender) : Op → Prop
   | .seg s => SegOk snd s
   | _ => True
 
+/-- a segment as AssembleWithTimestamp can receive it: `t.Seq` is a uint32 (no other restriction) -/
+def WfOp : Op → Prop
+  | .seg s => 0 ≤ s.seq ∧ s.seq < 4294967296
+  | _ => True
+
 /-- window hypothesis: every stream (with SYN and FIN) is shorter than 2^30, and ISNs are uint32 -/
 def SendersOk (snd : Nat → Sender) : Prop :=
   ∀ k, (snd k).isn < 4294967296 ∧ (snd k).S.length + 2 < 1073741824
